@@ -42,7 +42,34 @@ func (n c18Name) value() Name {
 
 func c18KnownIDType(t int) bool { return t >= 0 && t <= 3 }
 
-func c18NameEq(a, b Name) bool { return a.Type == b.Type && bytes.Equal(a.Label, b.Label) }
+// c18NameEq compares two names as values: type, label bytes, and IsZero() - the
+// one place where the documentation gives the nil-ness of a label a meaning of
+// its own: "When Label is []byte{} (0-length, non-nil), it does not count as
+// zero. It's an explicitly empty, raw name", and verification treats only the
+// zero Name as "no name requested". bytes.Equal alone cannot tell nil from
+// empty. (For a non-zero type nil and empty labels are documented nowhere to
+// differ, so nothing is demanded there.)
+func c18NameEq(a, b Name) bool { return c18NameDiff(a, b) == "" }
+
+// c18NameDiff names the first aspect in which b (decoded) differs from a ("" = equal).
+func c18NameDiff(a, b Name) string {
+	switch {
+	case a.Type != b.Type:
+		return "Type"
+	case !bytes.Equal(a.Label, b.Label):
+		return "Label"
+	case a.IsZero() != b.IsZero():
+		return "IsZero"
+	}
+	return ""
+}
+
+func c18NameStr(n Name) string {
+	if n.Label == nil {
+		return fmt.Sprintf("type %d/nil label (IsZero=%v)", n.Type, n.IsZero())
+	}
+	return fmt.Sprintf("type %d/%d bytes non-nil (IsZero=%v)", n.Type, len(n.Label), n.IsZero())
+}
 
 // ---------------------------------------------------------------------------
 // Name (A)
@@ -100,8 +127,14 @@ func c18NameRunA(c c18NameCase, v *vlib.Verdict) {
 		bad = fmt.Sprintf("type %d decodes as %d", name.Type, got.Type)
 	case !bytes.Equal(got.Label, name.Label):
 		bad = fmt.Sprintf("label of %d bytes decodes as %d different bytes", len(name.Label), len(got.Label))
+	case c18NameDiff(name, got) != "":
+		// the generated label is never nil (vlib.Fill): a zero-length one is the explicitly empty name
+		bad = fmt.Sprintf("%s decodes as %s", c18NameStr(name), c18NameStr(got))
 	case st.Consumed != len(enc):
 		bad = fmt.Sprintf("ReadFrom consumed %d of %d encoded bytes", st.Consumed, len(enc))
+	}
+	if c.Len == 0 {
+		v.Label("label=0")
 	}
 	if bad == "" {
 		if !fits {
@@ -113,7 +146,7 @@ func c18NameRunA(c c18NameCase, v *vlib.Verdict) {
 				return "", "", err
 			}
 			if !c18NameEq(got, again) {
-				return "Name", fmt.Sprintf("type %d/%d bytes instead of type %d/%d bytes", again.Type, len(again.Label), got.Type, len(got.Label)), nil
+				return "Name", fmt.Sprintf("%s instead of %s", c18NameStr(again), c18NameStr(got)), nil
 			}
 			return "", "", nil
 		})
@@ -130,6 +163,8 @@ func c18NameRunA(c c18NameCase, v *vlib.Verdict) {
 		v.Failf("C18:roundtrip-mismatch:certs.Name:Type", "%s", bad)
 	case !bytes.Equal(got.Label, name.Label):
 		v.Failf("C18:roundtrip-mismatch:certs.Name:Label", "%s", bad)
+	case c18NameDiff(name, got) != "":
+		v.Failf("C18:roundtrip-mismatch:certs.Name:"+c18NameDiff(name, got), "%s", bad)
 	default:
 		v.Failf("C18:consumed-length:certs.Name", "%s", bad)
 	}
@@ -255,8 +290,12 @@ func c18CertDiff(a, b *Certificate) (field, detail string) {
 		return "IDChunk", fmt.Sprintf("%d names vs %d names", len(a.IDChunk.Blocks), len(b.IDChunk.Blocks))
 	}
 	for i := range a.IDChunk.Blocks {
-		if !c18NameEq(a.IDChunk.Blocks[i], b.IDChunk.Blocks[i]) {
-			return "IDChunk", fmt.Sprintf("name %d: type %d/%d bytes vs type %d/%d bytes", i, a.IDChunk.Blocks[i].Type, len(a.IDChunk.Blocks[i].Label), b.IDChunk.Blocks[i].Type, len(b.IDChunk.Blocks[i].Label))
+		if d := c18NameDiff(a.IDChunk.Blocks[i], b.IDChunk.Blocks[i]); d != "" {
+			field := "IDChunk"
+			if d == "IsZero" {
+				field = "IDChunk:" + d
+			}
+			return field, fmt.Sprintf("name %d: %s vs %s", i, c18NameStr(a.IDChunk.Blocks[i]), c18NameStr(b.IDChunk.Blocks[i]))
 		}
 	}
 	return "", ""
@@ -284,6 +323,135 @@ func c18ChunkFits(names []Name) (fits bool, chunkLen int, why, codec string) {
 		}
 	}
 	return
+}
+
+// c18MarshalOwnMemory: Marshal is documented to write the serialisation "to
+// newly-allocated memory" and callers treat the result as theirs (copy it into
+// packets, PEM-encode it, patch it in negative tests). parsed came from ReadFrom,
+// want is what WriteTo makes of it. Marshal must give want; after the caller
+// overwrote every byte of the result, the certificate's retained raw bytes (the
+// bytes its signature is checked against) and fingerprint must be untouched
+// and a second Marshal must give want again.
+func c18MarshalOwnMemory(v *vlib.Verdict, parsed *Certificate, want []byte) bool {
+	raw0 := append([]byte(nil), parsed.raw.Bytes()...)
+	fp0 := parsed.Fingerprint
+	var m1, m2 []byte
+	var e1, e2 error
+	if vlib.Guard(v, func() { m1, e1 = parsed.Marshal() }) {
+		return false
+	}
+	if e1 != nil || !bytes.Equal(m1, want) {
+		v.Failf("C18:roundtrip-mismatch:certs.Certificate:Marshal", "Marshal of a parsed certificate (err=%v, %d bytes) differs from its WriteTo (%d bytes)", e1, len(m1), len(want))
+		return false
+	}
+	for i := range m1 {
+		m1[i] ^= 0xA5
+	}
+	if full := m1[:cap(m1)]; len(full) > len(m1) { // spare capacity belongs to the caller too (append)
+		for i := len(m1); i < len(full); i++ {
+			full[i] ^= 0xA5
+		}
+	}
+	if !bytes.Equal(parsed.raw.Bytes(), raw0) {
+		v.Failf("C18:marshal-result-shares-memory:certs.Certificate:retained-raw", "overwriting the %d bytes Marshal returned changed the certificate's retained raw bytes (the bytes VerifyParent checks the signature against)", len(m1))
+		return false
+	}
+	if parsed.Fingerprint != fp0 {
+		v.Failf("C18:marshal-result-shares-memory:certs.Certificate:Fingerprint", "overwriting the bytes Marshal returned changed the certificate's fingerprint")
+		return false
+	}
+	if vlib.Guard(v, func() { m2, e2 = parsed.Marshal() }) {
+		return false
+	}
+	if e2 != nil || !bytes.Equal(m2, want) {
+		v.Failf("C18:marshal-result-shares-memory:certs.Certificate:second-Marshal", "after the caller overwrote the first Marshal result a second Marshal (err=%v, %d bytes) no longer gives the certificate's serialisation", e2, len(m2))
+		return false
+	}
+	return true
+}
+
+// c18ModifiedAfterParse: a value that was parsed and then changed is a value
+// like any other: its encoding must decode to the CHANGED value (a serialisation
+// kept from parse time must not be handed out for a struct that no longer has
+// those contents). sel selects the fields changed (bit 0 version, 1 type, 2
+// IssuedAt, 3 ExpiresAt, 4 public key, 5 parent, 6 names, 7 signature); every
+// change stays inside the format. Returns false after a violation.
+func c18ModifiedAfterParse(v *vlib.Verdict, enc []byte, sel int, seed uint64) bool {
+	p := new(Certificate)
+	var err error
+	if vlib.Guard(v, func() { _, err = p.ReadFrom(bytes.NewReader(enc)) }) {
+		return false
+	}
+	if err != nil {
+		return true // judged elsewhere
+	}
+	bump := func(t time.Time) time.Time {
+		if u := t.Unix(); u < 1<<62 {
+			return time.Unix(u+1, 0)
+		}
+		return time.Unix(t.Unix()-1, 0)
+	}
+	var changed []string
+	if sel&1 != 0 {
+		p.Version++
+		changed = append(changed, "Version")
+	}
+	if sel&2 != 0 {
+		p.Type++
+		changed = append(changed, "Type")
+	}
+	if sel&4 != 0 {
+		p.IssuedAt = bump(p.IssuedAt)
+		changed = append(changed, "IssuedAt")
+	}
+	if sel&8 != 0 {
+		p.ExpiresAt = bump(p.ExpiresAt)
+		changed = append(changed, "ExpiresAt")
+	}
+	if sel&16 != 0 {
+		p.PublicKey[seed%KeyLen] ^= 1
+		changed = append(changed, "PublicKey")
+	}
+	if sel&32 != 0 {
+		p.Parent[seed%SHA3Len] ^= 0x80
+		changed = append(changed, "Parent")
+	}
+	if sel&64 != 0 {
+		if n := len(p.IDChunk.Blocks); n > 0 {
+			p.IDChunk.Blocks = append([]Name(nil), p.IDChunk.Blocks[:n-1]...)
+		} else {
+			p.IDChunk.Blocks = []Name{{Type: IDType(seed % 4), Label: vlib.Fill(seed+11, int(seed%5))}}
+		}
+		changed = append(changed, "IDChunk")
+	}
+	if sel&128 != 0 {
+		p.Signature[seed%SignatureLen] ^= 1
+		changed = append(changed, "Signature")
+	}
+	if len(changed) == 0 {
+		return true
+	}
+	var mb []byte
+	if vlib.Guard(v, func() { mb, err = p.Marshal() }) {
+		return false
+	}
+	if err != nil {
+		v.Failf("C18:encode-rejects-representable:certs.Certificate:modified-after-parse", "Marshal rejects a parsed certificate after changing %v: %v", changed, err)
+		return false
+	}
+	back := new(Certificate)
+	if vlib.Guard(v, func() { _, err = back.ReadFrom(bytes.NewReader(mb)) }) {
+		return false
+	}
+	if err != nil {
+		v.Failf("C18:decode-rejects-own-encoding:certs.Certificate:modified-after-parse", "changed %v after parsing; Marshal's %d bytes are rejected: %v", changed, len(mb), err)
+		return false
+	}
+	if f, d := c18CertDiff(p, back); f != "" {
+		v.Failf("C18:roundtrip-mismatch:certs.Certificate:modified-after-parse:"+f, "a parsed certificate had %v changed; Marshal + ReadFrom gives back another value, first differing field %s (%s)", changed, f, d)
+		return false
+	}
+	return true
 }
 
 func c18KnownCertType(t int) bool { return t >= 1 && t <= 3 }
@@ -371,6 +539,13 @@ func c18CertRunA(c c18Cert, v *vlib.Verdict) {
 	}
 	if merr != nil || !bytes.Equal(mb, enc) {
 		v.Failf("C18:roundtrip-mismatch:certs.Certificate:Marshal", "Marshal (err=%v, %d bytes) differs from WriteTo (%d bytes)", merr, len(mb), len(enc))
+		return
+	}
+	// the parsed certificate: Marshal hands out memory of its own, and follows a later change of the value
+	if !c18MarshalOwnMemory(v, got, enc) {
+		return
+	}
+	if !c18ModifiedAfterParse(v, enc, int(c.Seed>>16&0xff), c.Seed) {
 		return
 	}
 	// PEM wrappers
@@ -601,6 +776,9 @@ func c18CertBytesB(in []byte, valid *Certificate, dlv wire.Delivery, v *vlib.Ver
 		v.Label("accepted-non-canonical")
 	} else {
 		v.Label("accepted-canonical")
+	}
+	if !c18MarshalOwnMemory(v, val, re) {
+		return
 	}
 	val2 := new(Certificate)
 	var err2 error
